@@ -41,6 +41,27 @@ func positionShapes() map[string]func(prefix string) *spec.Spec {
 			}}
 			return &spec.Spec{Kind: spec.KScope, Root: p + "A", Objects: []*spec.Spec{a, b, c}}
 		},
+		// objects written in place (not registered in the scope) as one-of member, list item and map value, each with
+		// a default text and a reference of its own
+		"inplace": func(p string) *spec.Spec {
+			b := &spec.Spec{Kind: spec.KObject, ID: p + "B", Props: []spec.Prop{{Name: "s", Type: str}}}
+			inPlace := func(id string) *spec.Spec {
+				return &spec.Spec{Kind: spec.KObject, ID: p + id, Props: []spec.Prop{
+					{Name: "n", Type: integer, Default: &one},
+					{Name: "r", Type: &spec.Spec{Kind: spec.KRef, RefID: p + "B"}},
+				}}
+			}
+			oo := &spec.Spec{Kind: spec.KOneOfS, Discriminator: "kind", Members: []spec.Member{
+				{KeyS: "b", Type: &spec.Spec{Kind: spec.KRef, RefID: p + "B"}},
+				{KeyS: "i", Type: inPlace("I1")},
+			}}
+			a := &spec.Spec{Kind: spec.KObject, ID: p + "A", Props: []spec.Prop{
+				{Name: "p", Type: oo},
+				{Name: "l", Type: &spec.Spec{Kind: spec.KList, Items: inPlace("I2")}},
+				{Name: "m", Type: &spec.Spec{Kind: spec.KMap, Keys: str, Values: inPlace("I3")}},
+			}}
+			return &spec.Spec{Kind: spec.KScope, Root: p + "A", Objects: []*spec.Spec{a, b}}
+		},
 	}
 }
 
@@ -53,6 +74,7 @@ var positionInputs = []val.V{
 	val.Map("map[string]any", kv("p", val.Map("map[string]any", kv("s", val.Str("x")))), kv("q", val.Int("int64", 2))),
 	val.Map("map[string]any", kv("p", val.Map("map[string]any", kv("kind", val.Str("b")), kv("s", val.Str("x")))), kv("l", val.List("[]any", val.Map("map[string]any", kv("s", val.Str("y")))))),
 	val.Map("map[any]any", kv("p", val.Map("map[any]any", kv("kind", val.Str("c"))))),
+	val.Map("map[string]any", kv("p", val.Map("map[string]any", kv("kind", val.Str("i")))), kv("l", val.List("[]any", val.Map("map[string]any"))), kv("m", val.Map("map[string]any", kv("a", val.Map("map[string]any", kv("r", val.Map("map[string]any", kv("s", val.Str("x"))))))))),
 }
 
 // TestPositions: every single mutation of small plugin descriptions in which each position that carries a scope
@@ -66,7 +88,7 @@ func TestPositions(t *testing.T) {
 	defer w.Close()
 	idx, total := 0, 0
 	shapes := positionShapes()
-	for _, shapeName := range []string{"refs", "oneof"} {
+	for _, shapeName := range []string{"refs", "oneof", "inplace"} {
 		mk := func(prefix string) *schema.ScopeSchema {
 			b, err := spec.Build(shapes[shapeName](prefix))
 			if err != nil {
@@ -123,5 +145,5 @@ func TestPositions(t *testing.T) {
 			}
 		}
 	}
-	ev.Exhaustive(fmt.Sprintf("positions: all %d single mutations of 6 small plugin descriptions (2 scope shapes with references x 3 ways the handler / emitter / output IDs coincide), every scope-carrying position holding a scope that needs linking and verification", total))
+	ev.Exhaustive(fmt.Sprintf("positions: all %d single mutations of 9 small plugin descriptions (3 scope shapes with references, one of them with objects written in place as one-of member / list item / map value, x 3 ways the handler / emitter / output IDs coincide), every scope-carrying position holding a scope that needs linking and verification", total))
 }
